@@ -531,6 +531,185 @@ def r13_8(chk, P, K, res):
     return n
 
 
+def _elem_record(P, rec, fld):
+    """record type of the elements of pointer/array field rec.fld when they are structs with a release function"""
+    r = P.records.get(rec)
+    if not r:
+        return None
+    for f in r['fields']:
+        if f['name'] == fld:
+            t = f['t'].replace('const ', '').replace('struct ', '').strip()
+            if t.endswith('*') and t.count('*') == 1:
+                b = t[:-1].strip()
+                if b in RELEASE_OF and b in P.records:
+                    return b
+    return None
+
+
+def r13_9(chk, P, K):
+    chk.rule('R13.9', 'an array of owning records (a pointer field whose elements are structs with a release function, e.g. '
+             'codec_setup_info.fullbooks of codebooks) is freed only where every element has been released: the free is preceded, '
+             'on every path, by a loop over the whole array that calls the element\'s release function on each element, '
+             'conditioned on nothing but the array itself')
+    sk = k8.Skel(P, 'r')
+    n = 0
+    for F in P.functions():
+        k = P.key(F)
+        for c in sorted(F.calls('free'), key=lambda x: F.ex[x]['loc']):
+            a = F.ex[c].get('c', [None])[0]
+            if a is None:
+                continue
+            an = F.ex[F.strip_casts(a)]
+            if an['k'] != 'member' or 'record' not in an:
+                continue
+            er = _elem_record(P, an['record'], an['field'])
+            if er is None:
+                continue
+            rel = RELEASE_OF[er]
+            n += 1
+            arr = sk.canon(F, F.strip_casts(a))
+            # release calls on an element of this array inside a loop
+            good = False
+            # a pointer to one record: released as a whole right before the free
+            for rc in F.calls(rel):
+                ra = F.ex[rc].get('c', [None])[0]
+                if ra is not None and sk.canon(F, F.strip_casts(ra)) == arr and cfg.pos_dominates(F, rc, c):
+                    good = True
+            why = f'no loop releases the elements of {F.s(F.strip_casts(a))} with {rel} before the free'
+            for rc in F.calls(rel):
+                ra = F.ex[rc].get('c', [None])[0]
+                if ra is None or an['field'] not in sk.canon(F, F.strip_casts(ra)):
+                    continue
+                roots = root_members(F, ra)
+                if (an['record'], an['field']) not in roots:
+                    continue
+                inloop = [h for h, body in cfg.loops(F).items() if F.pos[rc][0] in body]
+                if not inloop:
+                    continue
+                # conditions (inside the function) that control the release call: only tests of the array pointer itself,
+                # the loop condition, and whatever also controls the free
+                fc = {(x, pol) for x, pol in common.controlling_conditions(F, c)}
+                bad = []
+                count_guard = set()
+                for x, pol in common.controlling_conditions(F, rc):
+                    cs = sk.canon(F, x)
+                    if (x, pol) in fc:
+                        continue
+                    t = F.blocks[F.pos[x][0]].get('term') or {}
+                    if any(F.blocks[h].get('term', {}).get('cond') == x for h in inloop):
+                        continue
+                    if cs.replace('!', '').strip('()') == arr or cs in (arr, f'({arr}!=0)'):
+                        continue
+                    # a null test of the object the element count is read from (without it the count is unknown)
+                    hb_ = [h for h in inloop if F.blocks[h].get('term', {}).get('cond') is not None]
+                    cnt_ok = False
+                    for h in hb_:
+                        cn = F.ex[F.strip_casts(F.blocks[h]['term']['cond'])]
+                        if cn['k'] == 'bin' and len(cn.get('c', [])) == 2:
+                            bnd = F.ex[F.strip_casts(cn['c'][1])]
+                            if bnd['k'] == 'member':
+                                base = F.strip_casts(bnd['c'][0])
+                                if sk.canon(F, x) == sk.canon(F, base) or F.s(F.strip_casts(x)) == F.s(base):
+                                    cnt_ok = True
+                    if cnt_ok:
+                        count_guard.add(x)
+                        continue
+                    bad.append(cs)
+                if bad:
+                    why = f'the elements are released only under {bad}: elements for which that is false keep their memory when the array is freed'
+                    continue
+                # the loop must come before the free on every path: the free is not reachable from entry avoiding the loop header
+                h = min(inloop, key=lambda h_: len(cfg.loops(F)[h_]))
+                hb = h
+                guard_blocks = {b_ for b_, blk in F.blocks.items() if blk.get('term') and blk['term'].get('cond') is not None
+                                and blk['term']['cond'] in count_guard}
+                path = cfg.search(F, None, lambda nn: nn == c, lambda nn: F.pos.get(nn, (None,))[0] == hb,
+                                  lambda b_, si: not (b_ in guard_blocks and si == 1))
+                if path is None:
+                    good = True
+                else:
+                    why = 'the free can be reached without passing the releasing loop'
+            chk.ob('R13.9', k, f'elements-released-before-free:{an["record"]}.{an["field"]}', good, F.where(c),
+                   f'every element is released with {rel} on the way to the free' if good else why)
+    return n
+
+
+def _wiped_params(G):
+    """indices of the pointer parameters the function wipes with memset(param,0,..): it (re)initialises that object"""
+    out = set()
+    pidx = {p['id']: i for i, p in enumerate(G.params)}
+    for c in G.calls('memset'):
+        a = G.ex[c].get('c', [])
+        if len(a) >= 2:
+            x = G.ex[G.strip_casts(a[0])]
+            z = G.ex[G.strip_casts(a[1])]
+            if x['k'] == 'ref' and x['decl'].get('id') in pidx and z['k'] == 'int' and z['v'] == 0:
+                out.add(pidx[x['decl']['id']])
+    return out
+
+
+def r13_10(chk, P, K):
+    chk.rule('R13.10', 'an element of an owning array is initialised (made to own memory: an init function or a callee whose '
+             'summary leaves its parameter live) only where the array has just been allocated: the initialising call is '
+             'dominated by the store of a fresh allocation into that array field, under the same conditions.  Re-initialising '
+             'a live element would orphan what it owns')
+    sk = k8.Skel(P, 'r')
+    n = 0
+    for F in P.functions():
+        k = P.key(F)
+        for c in sorted(F.calls(), key=lambda x: F.ex[x]['loc']):
+            nd = F.ex[c]
+            d = nd['callee'].get('d')
+            args = nd.get('c', [])
+            live_params = set()
+            if d in k6.INIT:
+                live_params.add(0)
+            for t in P.call_targets(F, c):
+                sm = K.summary.get(t)
+                if sm and not t.startswith(('ext:', 'cb:', 'unk:')):
+                    G = P.fn[t]
+                    wiped = _wiped_params(G)
+                    for (cls, live) in sm['outcomes']:
+                        for o in live:
+                            if o[0] == 'P' and int(o[1:]) in wiped:
+                                live_params.add(int(o[1:]))
+            for i in sorted(live_params):
+                if i >= len(args):
+                    continue
+                a = F.strip_casts(args[i])
+                an = F.ex[a]
+                # element of a pointer field: x->A+i, &x->A[i]
+                elem = False
+                root = an
+                if an['k'] == 'bin' and an['op'] == '+':
+                    root = F.ex[F.strip_casts(an['c'][0])]
+                    elem = True
+                elif an['k'] == 'un' and an['op'] == '&':
+                    inner = F.ex[F.strip_casts(an['c'][0])]
+                    if inner['k'] == 'sub':
+                        root = F.ex[F.strip_casts(inner['c'][0])]
+                        elem = True
+                if not elem or root['k'] != 'member' or 'record' not in root or root.get('t', '').endswith(']'):
+                    continue
+                n += 1
+                rec, fld = root['record'], root['field']
+                # a store of fresh memory into the same field that dominates the call
+                ok = False
+                for e in F.pos:
+                    x = F.ex[e]
+                    if x['k'] == 'assign' and x['op'] == '=':
+                        l = F.ex[F.strip_casts(x['c'][0])]
+                        if l['k'] == 'member' and l.get('record') == rec and l['field'] == fld and _is_fresh_rhs(P, K, F, x['c'][1]) \
+                                and cfg.pos_dominates(F, e, c):
+                            ok = True
+                same = [y for y in sorted(F.calls(d), key=lambda y: F.ex[y]['loc'])] if d else [c]
+                chk.ob('R13.10', k, f'init-of-fresh-element:{rec}.{fld}:{d}#{same.index(c) if c in same else 0}', ok, F.where(c),
+                       f'the array {rec}.{fld} was allocated on every path to this call' if ok else
+                       f'{F.s(c)[:70]} can run on an element of an array that was not allocated just before (the allocation does not '
+                       'dominate the call): an element that is already live would lose what it owns')
+    return n
+
+
 def r13_6(chk, P, K):
     chk.rule('R13.6', 'static_codebook objects and their lists are freed only in vorbis_staticbook_destroy, and there only under '
              'the allocedp test; allocedp is set non-zero only in vorbis_staticbook_unpack: the shared const encoder codebooks '
@@ -573,6 +752,10 @@ def run(chk, P):
     chk.floor('R13.6', 4)
     r13_8(chk, P, K, res)
     chk.floor('R13.8', 8)
+    r13_9(chk, P, K)
+    chk.floor('R13.9', 1)
+    r13_10(chk, P, K)
+    chk.floor('R13.10', 2)
     chk.rule('R13.7', 'the close callback has exactly one call site, in ov_clear, guarded by a non-null data source, and failed '
              'opens detach the source first (same obligations as R12.3); ov_clear wipes the handle (R13.3a), so a second '
              'ov_clear sees no data source')
